@@ -36,7 +36,16 @@ def _scf_eval(inp: Dict[str, Any]) -> Dict[str, Any]:
 
     import seqm.basics as B
     import seqm.seqm_functions.scf_loop as S
-    from seqm.seqm_functions.pack import pack
+    from seqm.seqm_functions.pack import pack as _pack_batch
+
+    def pack(X, nH, nHy):
+        # per-molecule packing (independent of any batch shortcut inside the package's pack)
+        rows = [_pack_batch(X[i:i + 1], nH[i:i + 1], nHy[i:i + 1])[0] for i in range(X.shape[0])]
+        n = max(int(r_.shape[-1]) for r_ in rows)
+        out = torch.zeros(len(rows), n, n, dtype=X.dtype)
+        for i, r_ in enumerate(rows):
+            out[i, : r_.shape[0], : r_.shape[1]] = r_
+        return out
 
     if inp.get("max_iter"):
         S.MAX_ITER = int(inp["max_iter"])
@@ -116,16 +125,30 @@ def _scf_eval(inp: Dict[str, Any]) -> Dict[str, Any]:
                 bad.append(f"mol{m}: charges sum off by {dq:.2e}"); kinds.add("charge")
     else:
         P = r["dm"]
+        Pt = torch.as_tensor(P)
+        Pp = [pack(Pt[:, s_], mol.nHeavy, mol.nHydro).numpy() for s_ in range(2)]
         for m in range(nmol):
             if notconv[m]:
                 continue
+            nb = int(r["norb"][m])
             for s_ in range(2):
-                sym = np.abs(P[m, s_] - P[m, s_].T).max()
+                Pm = Pp[s_][m][:nb, :nb]
+                sym = np.abs(Pm - Pm.T).max()
                 if sym > 1e-9:
                     bad.append(f"mol{m} spin{s_}: not symmetric"); kinds.add("symmetric")
+                idem = np.abs(Pm @ Pm - Pm).max()
+                if idem > max(2e-8, 400 * eps * K):
+                    bad.append(f"mol{m} spin{s_}: spin density not idempotent ({idem:.2e})"); kinds.add("idempotent")
+                no_s = int(np.asarray(r["nocc"])[m][s_])
+                trs = abs(np.trace(Pm) - no_s)
+                if trs > max(1e-8, 50 * eps * K):
+                    bad.append(f"mol{m} spin{s_}: trace {np.trace(Pm):.6f} != number of spin-{s_} electrons {no_s}"); kinds.add("trace")
             tr = abs(np.trace(P[m, 0]) + np.trace(P[m, 1]) - nel[m])
             if tr > 1e-7:
                 bad.append(f"mol{m}: trace off by {tr:.2e}"); kinds.add("trace")
+            dq = abs(r["q"][m].sum() - esh.CHARGE.get(names[m], 0))
+            if dq > max(1e-7, 50 * eps * K):
+                bad.append(f"mol{m}: charges sum off by {dq:.2e}"); kinds.add("charge")
     if not np.isfinite(r["Etot"][~notconv]).all():
         bad.append("non-finite energy for a molecule flagged converged"); kinds.add("finite")
     return {"bad": bad, "kinds": sorted(kinds), "notconverged": notconv.tolist()}
@@ -184,6 +207,12 @@ def gen_cases(ctx: Ctx):
         cases.append(c)
     for nm, meth in ([("no", "AM1"), ("oh", "PM3"), ("o2", "MNDO")] if ctx.thorough else [("oh", "AM1")]):
         cases.append({"names": [nm], "method": meth, "eps": 1e-8, "converger": [1], "uhf": True})
+    # unrestricted reference with the fixed-mixing solver (every solver x spin combination that the package accepts)
+    cases.append({"names": ["oh"], "method": "AM1", "eps": 1e-8, "converger": [0, 0.3], "uhf": True})
+    cases.append({"names": [str(rng.choice(["no", "o2", "oh"]))], "method": str(rng.choice(methods)), "eps": 1e-8, "converger": [0, float(rng.choice([0.0, 0.5]))], "uhf": True})
+    # batch mates with equal orbital count but different heavy/hydrogen split, also as the ACTIVE subset left mid-SCF (H2 converges first)
+    for names in (["ch4", "co"], ["h2", "ch4", "co"], ["so2", "c2h4"]):
+        cases.append({"names": names, "method": str(rng.choice(methods)), "eps": 1e-9, "converger": [[1], [0, 0.2]][int(rng.integers(0, 2))], "pad_to": max(len(esh.GEOMS[v][0]) for v in names)})
     # iteration cap must be reported
     cases.append({"names": ["so2", "ch2o"], "method": "AM1", "eps": 1e-11, "converger": [0, 0.5], "max_iter": 3, "expect_flag": True})
     cases.append({"names": ["c2h4"], "method": "PM3", "eps": 1e-11, "converger": [2], "max_iter": 2, "expect_flag": True})
